@@ -331,6 +331,67 @@ pub fn run(ctx: &Ctx) -> Report {
         let seq = seq_decode(i - offsets[ci], k, bound(cfg));
         judge(cfg, &seq, l);
     }));
+    // items placed in the implicit default bank although the program defines banks: every kind of item, before the
+    // first definition and between two definitions
+    {
+        let pres: Vec<(&str, Item)> = vec![
+            ("instruction", Item::Instr("nop".into())),
+            ("data", Item::Data(Some(8), vec!["1".into()])),
+            ("label", Item::Label("L0".into())),
+            ("reservation", Item::Res("1".into())),
+        ];
+        let mut cases: Vec<(String, Prog)> = vec![];
+        for cfg in cfgs.iter().filter(|c| c.order.iter().enumerate().all(|(i, o)| i == *o)) {
+            for (kind, pre) in &pres {
+                for at in 0..cfg.banks.len() {
+                    for tail in [false, true] {
+                        let mut items = vec![];
+                        for (i, b) in cfg.banks.iter().enumerate() {
+                            if i == at {
+                                if at > 0 {
+                                    // back to the default bank is not expressible: only the position before the first definition is
+                                    continue;
+                                }
+                                items.push(pre.clone());
+                            }
+                            items.push(Item::Bankdef(b.clone()));
+                        }
+                        if at > 0 {
+                            continue;
+                        }
+                        items.push(Item::Bank("a".into()));
+                        if tail {
+                            items.push(Item::Instr("nop".into()));
+                        }
+                        cases.push((kind.to_string(), Prog { ruledefs: vec![RuleDefSrc { name: None, sub: false, rules: vec![RuleSrc::new("nop", "0x00")] }], items }));
+                    }
+                }
+            }
+        }
+        rep.absorb(par_cases(&cases, |(kind, prog), l| {
+            let src = prog.render();
+            let r = assemble(prog);
+            l.eval();
+            let obs = run::assemble_str(&src, &Opts::iters(30));
+            l.nontrivial(&src);
+            l.traces_validated += 1;
+            match &r {
+                RefOut::Error(e) => {
+                    l.class(&format!("must-reject:{}", e));
+                    if obs.ok || obs.panicked.is_some() {
+                        l.violation(Violation {
+                            property: ID,
+                            key: format!("C06:default-bank-{}-accepted", kind),
+                            what: format!("an item ({}) in the default bank of a program that defines banks was assembled: {}", kind, src.replace('\n', " / ")),
+                            case: json!({"program": src, "expected": super::c01::ref_summary(&r), "observed": obs.summary()}),
+                        });
+                    }
+                }
+                _ => l.unspecified += 1,
+            }
+        }));
+        rep.extra("default_bank_cases", json!(cases.len()));
+    }
     let nseq = json!({"bounds": "one plain bank: length<=4 (quick) / <=5 (thorough); one bank: <=3 (quick) / <=4 (thorough); two or three banks: <=2 (quick) / <=3 (thorough)", "total": total});
     rep.extra("configurations", json!(ncfg));
     rep.extra("sequences_per_configuration", json!(nseq));
@@ -341,6 +402,7 @@ pub fn run(ctx: &Ctx) -> Report {
     rep.require_class("must-reject:output overlap");
     rep.require_class("must-reject:write into a bank without output");
     rep.require_class("must-reject:label not aligned to an address");
+    rep.require_class("must-reject:use of the default bank while banks are defined");
     rep
 }
 
